@@ -20,7 +20,8 @@ RULE = ("exhaustive: every set of distinct strict orders over 3 alternatives (2^
         "switch-back profiles (a chain plus an order beyond its end that switches back a pair switched before the first "
         "stored order: every single order is compatible with the first two stored orders); random: swap-walk single-crossing sequences (m <= 6, n <= 7) shuffled, with and without "
         "one off-sequence order, 'stars' (a sequence plus two or three adjacent-swap neighbours of one member, m <= 8, "
-        "n <= 15: score ties), uniformly random sets of orders (m <= 6, n <= 7); large planted single-crossing profiles (m <= 12, "
+        "n <= 15: score ties), uniformly random sets of orders (m <= 6, n <= 7), a block dedicated to the n < m path "
+        "(m in 5..8, 3 <= n < m: walks, walk+1, stars, orders near a common base); large planted single-crossing profiles (m <= 12, "
         "n <= 40) and large negatives (planted profile + embedded refuted core). "
         "non-trivial = at least 3 distinct orders")
 EXHAUSTIVE = {"quick": "m=3: all subsets of the 6 orders in every storage order (ids 0..2 and 1..3); m=4: all sets of "
@@ -36,6 +37,10 @@ TRUSTED = ["(R) not mirrored: the Kendall-tau scoring / sort / bucket strategy o
            "OrdinalInstance.flatten_strict (tuple of the single member of each class) is used as is"]
 ASSUMPTIONS = ["profiles are duplicate-free lists of strict complete orders over the alternatives of the instance "
                "(data type soc), at least one order; alternatives are non-negative integers; multiplicities arbitrary >= 1"]
+THEOREMS_FOR_OP = {
+    "c04.decide": "sc_decide_correct / sc_conflict_decide_correct (verdict), sc_witness_check_correct (sequence)",
+    "c04.core": "sc_core_refutes_sound (sc_sub: heredity), sc_conflict_decide_correct",
+}
 TIMEOUT_S = 60.0
 CHUNK = 200
 
@@ -333,6 +338,42 @@ def generate(tier, seed):
             st[0], st[1] = st[1], st[0]
         out.append(mk(alts, st, mults(rng, len(st), tries % 2 == 0), gen="switchback"))
         made += 1
+    # ---- the n < m path with both verdicts: m in 5..8, 3 <= n < m
+    nlt = 1500 if quick else 15000
+    for i in range(nlt):
+        m = rng.randint(5, 8)
+        alts = list(range(1, m + 1))
+        n = rng.randint(3, m - 1)
+        kind = i % 4
+        if kind == 0:
+            orders = star(rng, swap_walk(rng, alts, n - 1), m, 1)[:n]
+            tag = "walk+1"
+        elif kind == 1:
+            orders = star(rng, swap_walk(rng, alts, max(2, n - 2)), m, 2)[:n]
+            tag = "star"
+        elif kind == 2:
+            # orders a few adjacent swaps away from a common base order
+            base = rand_perm(rng, alts)
+            orders = [base]
+            for _ in range(40):
+                if len(orders) >= n:
+                    break
+                o = list(base)
+                for _ in range(rng.randint(1, 3)):
+                    a = rng.randrange(m - 1)
+                    o[a], o[a + 1] = o[a + 1], o[a]
+                if o not in orders:
+                    orders.append(o)
+            tag = "near"
+        else:
+            orders = swap_walk(rng, alts, n)
+            tag = "walk"
+        orders = [list(o) for o in orders]
+        if i % 3 == 0:
+            rng.shuffle(orders)
+        elif i % 3 == 1:
+            orders = orders[::-1]
+        out.append(mk(alts, orders, mults(rng, len(orders), i % 2 == 0), gen=tag, lt=1))
     # ---- large planted single-crossing profiles: witness check at full size
     nlarge = 60 if quick else 500
     for i in range(nlarge):
@@ -485,7 +526,7 @@ def stats(c, r, m):
     lab = [f"verdict {v}", f"path {path} {v}", f"n={_bucket(n)}", f"m={mm if mm <= 6 else '>6'}",
            "gen " + str(c["tags"].get("gen", "exhaustive" if c["tags"].get("exh") else "sampled-m4"))]
     g = c["tags"].get("gen")
-    if g in ("chain-mid", "switchback", "star", "walk+1", "neg-core"):
+    if g in ("chain-mid", "switchback", "star", "walk+1", "neg-core", "near"):
         lab.append(f"gen {g} {v} {path}")
     if g == "chain-mid":
         lab.append("chain-mid first stored %s, %s" % ("in the middle" if c["tags"].get("first_mid") else "at an end", path))
